@@ -11,6 +11,7 @@ Decided from the parsed SQL program (effective routines after migration replay) 
   R5  _create_jobs: per-job tallies agree with the inserted state / always_run and are bound to the like-named columns; fan out over ancestors
   R6  closed world: only the listed routines / functions write the counter tables; cleanup deletes are keyed and filtered
   R7  commit_batch_update hands over exactly the root-group staging sums of that update, once
+  R8  no UPDATE changes the job columns the trigger treats as immutable
 Not decided: InnoDB locking / token-shard concurrency and the inductive argument over whole histories.
 """
 from __future__ import annotations
@@ -673,6 +674,53 @@ def r6_closed_world(ctx: Ctx, prog: sf.SqlProgram) -> None:
 
 
 # ------------------------------------------------------------------------------------------------
+IMMUTABLE = ['always_run', 'cores_mcpu', 'inst_coll', 'job_group_id', 'update_id', 'batch_id', 'job_id']
+
+
+def r8_immutable(ctx: Ctx, prog: sf.SqlProgram) -> None:
+    """The trigger computes OLD and NEW views with the OLD always_run / cores_mcpu and keys rows by NEW.inst_coll / job_group_id:
+    that is only right if no UPDATE ever changes those columns of a job."""
+    def cols_set(st: N) -> List[str]:
+        if st.kind != 'update':
+            return []
+        tabs = [t for t in sf.from_tables(st.frm) if t.kind == 'table']
+        alias = {(t.alias or t.name).lower(): t.name.lower() for t in tabs}
+        out = []
+        for c, _ in st.sets:
+            if c.kind != 'col':
+                continue
+            col = c.parts[-1].lower()
+            if len(c.parts) > 1:
+                if alias.get(c.parts[-2].lower()) == 'jobs':
+                    out.append(col)
+            elif tabs and tabs[0].name.lower() == 'jobs':
+                out.append(col)
+        return out
+    n = 0
+    for name, r in sorted(prog.routines.items()):
+        for st in sf.all_statements(r.ast.body):
+            cs_ = cols_set(st)
+            if cs_:
+                n += 1
+                bad = sorted(set(cs_) & set(IMMUTABLE))
+                ctx.check(not bad, 'R8', f'{r.file}::{name}::UPDATE jobs SET {", ".join(sorted(cs_))}', f'{name} changes jobs.{bad}: jobs_after_update derives both the removed and the added '
+                          'amount from one value of these columns, so the counters of the old value are never decremented', r.file, r.line_of(st))
+    for rel in pf.walk_py(['batch/batch']):
+        m = pf.load(rel)
+        if 'jobs' not in m.src:
+            continue
+        for e in sf.embedded_in(m):
+            if e.sql_text is None or 'jobs' not in e.sql_text or e.parse_error:
+                continue
+            for st in e.stmts():
+                cs_ = cols_set(st)
+                if cs_:
+                    n += 1
+                    bad = sorted(set(cs_) & set(IMMUTABLE))
+                    ctx.check(not bad, 'R8', f'{rel}::{e.qual}::UPDATE jobs SET {", ".join(sorted(cs_))}', f'changes jobs.{bad} which the counter trigger treats as immutable', m.path, e.lineno)
+    ctx.need(n >= 8, f'only {n} UPDATE statements on jobs found')
+
+
 def run(ctx: Ctx) -> None:
     ctx.explanation = ('Per-statement obligations of the scheduler-counter invariant decided on the effective SQL routines (after replaying the migration list) '
                        'and on the SQL embedded in the front end / driver; truth tables over the complete job-state domain are exhaustive.')
@@ -683,7 +731,7 @@ def run(ctx: Ctx) -> None:
     ctx.rule('R5', 'per-group counter rows fan out over the job group and all ancestors; _create_jobs tallies match the inserted job row and are bound to like-named columns', 18)
     ctx.rule('R6', 'closed world of writers of the counter tables; cleanup deletes keyed by the selected triple and filtered (committed / cancelled)', 18)
     ctx.rule('R7', 'commit_batch_update adds exactly the root-group staging sums of (batch, update), once, in the not-yet-committed branch', 7)
-    ctx.assume('jobs.always_run, cores_mcpu, inst_coll, job_group_id, update_id are never changed by an UPDATE of jobs (checked under C04/C41 writer rules)')
+    ctx.rule('R8', 'no UPDATE changes the job columns the trigger treats as immutable (always_run, cores_mcpu, inst_coll, job_group_id, update_id, keys)', 8)
     ctx.assume('MySQL: AFTER UPDATE trigger fires once per updated row; ON DUPLICATE KEY UPDATE runs instead of the insert for an existing key')
     prog = sf.load_program()
     ctx.unit('migration_scripts_replayed', len(prog.scripts))
@@ -694,3 +742,4 @@ def run(ctx: Ctx) -> None:
     r7_commit(ctx, prog)
     r5_create_jobs(ctx)
     r6_closed_world(ctx, prog)
+    r8_immutable(ctx, prog)
